@@ -3,6 +3,7 @@ import OpusProofs.Icdf
 import OpusProofs.LaplaceMain
 import OpusProofs.LaplaceP0
 import OpusProofs.CwrsRanges
+import OpusProofs.CeltAllocAgree
 /-
   Property C17 — "PVQ, Laplace and table-driven symbol codes are exact, prefix-free bijections".
 
@@ -351,5 +352,61 @@ theorem cwrs_val_ranges (N K b : Nat) (h : Reach N K b) (y : List Int) (hs : sum
   have hK := OpusProofs.CwrsRanges.reach_K_le h
   subst hs
   exact ⟨hK, OpusProofs.CwrsRanges.coord_le y, OpusProofs.CwrsRanges.sumSq_le y, Nat.mul_le_mul hK hK⟩
+
+
+/-! ## CELT bit allocation (celt/rate.c `clt_compute_allocation` / `interp_bits2pulses`, celt/celt.c `init_caps`)
+
+  Model `Opus.CeltAlloc` (OpusModel/CeltAlloc.lean): `computeAllocation p coder`, with the range coder abstracted as
+  the list of calls made (`Op.bit v` for `ec_*_bit_logp(…,1)`, `Op.uint v ft` for `ec_*_uint`) and, on the decoder
+  side, an oracle list of the values they return.  `Dom p` is the domain: `start < end ≤ 21`, `C ∈ {1,2}`, `LM ≤ 3`,
+  `offsets[j] ≥ 0`, `0 ≤ cap[j] ≤ 2^24`, `total ≤ 2^24` (negative totals allowed: the code clamps them to 0). -/
+
+/-- `init_caps(m, cap, LM, C)` yields caps inside `Dom` for every frame size and channel count. -/
+theorem init_caps_domain (LM C : Nat) (hLM : LM ≤ 3) (hC : C = 1 ∨ C = 2) (j : Nat) :
+    0 ≤ (Opus.CeltAlloc.initCaps LM C).getD j 0 ∧ (Opus.CeltAlloc.initCaps LM C).getD j 0 ≤ 16777216 :=
+  OpusProofs.CeltAlloc.initCaps_bounds LM C hLM hC j
+
+example : (Opus.CeltAlloc.initCaps 3 2).getD 20 0 = 9152 ∧ (Opus.CeltAlloc.initCaps 0 1).getD 0 0 = 72 := by decide +kernel
+
+/-- **Totality, ranges and the budget.**  For every input in the domain, encoder side (with a dual-stereo decision in
+    {0,1} and a non-negative intensity) or decoder side (any oracle):
+    (a) the function returns normally — both bisections and the band-skipping `for(;;)` loop terminate and no
+        `celt_assert` fires;
+    (d) `start < codedBands ≤ end`, `0 ≤ intensity ≤ codedBands`, `dual_stereo ∈ {0,1}`, `balance ≥ 0`;
+    (c) for every band `0 ≤ pulses[j] ≤ cap[j]` (`≤ C<<BITRES` for a single-coefficient band), `0 ≤ ebits[j] ≤
+        MAX_FINE_BITS`, `fine_priority[j] ∈ {0,1}` (`AllOkB`);
+    (b) the allocation never promises more than the frame has — in fact every 1/8 bit is accounted for:
+        `Σ_j (pulses[j] + (C·ebits[j] << BITRES)) + balance + cost(signalling) = max(total, 0)`, where a skip / dual
+        stereo flag costs 8 and the intensity `uint` is charged `LOG2_FRAC_TABLE[codedBands-start]`. -/
+theorem alloc_total_ranges_budget (p : Opus.CeltAlloc.Inp) (hp : OpusProofs.CeltAlloc.Dom p) (c : Opus.CeltAlloc.Coder)
+    (hc : c.ops = [])
+    (henc : c.encode = true → (p.dualStereo = 0 ∨ p.dualStereo = 1) ∧ 0 ≤ p.intensity) :
+    ∃ o, Opus.CeltAlloc.computeAllocation p c = .ok o ∧
+      p.start < o.codedBands ∧ o.codedBands ≤ p.end_ ∧
+      0 ≤ o.intensity ∧ o.intensity ≤ o.codedBands ∧ (o.dualStereo = 0 ∨ o.dualStereo = 1) ∧ 0 ≤ o.balance ∧
+      OpusProofs.CeltAlloc.AllOkB p (Opus.CeltAlloc.bands p) o.bands ∧
+      OpusProofs.CeltAlloc.sumOut (p.C : Int) o.bands + o.balance + OpusProofs.CeltAlloc.opsCost o.ops = max p.total 0 := by
+  obtain ⟨o, h1, h2, h3, h4, h5, h6, h7, h8, h9⟩ := OpusProofs.CeltAlloc.alloc_main p hp c henc
+  refine ⟨o, h1, h2, h3, h4, h5, h6, h7, h8, ?_⟩
+  rw [h9, hc]; simp [OpusProofs.CeltAlloc.opsCost]
+
+/-- a full-band stereo 20 ms frame with 1000 bytes is in the domain -/
+example : OpusProofs.CeltAlloc.Dom
+    ⟨0, 21, [], Opus.CeltAlloc.initCaps 3 2, 5, 21, 0, 64000, 2, 3, 0, 20⟩ :=
+  ⟨by decide, by decide, Or.inr rfl, by decide, fun j => by simp [List.getD],
+   fun j => OpusProofs.CeltAlloc.initCaps_bounds 3 2 (by decide) (Or.inr rfl) j, by decide⟩
+
+/-- **Encoder and decoder compute the same allocation.**  If the encoder-side run returns `o`, the decoder-side run —
+    same `start, end, offsets, cap, alloc_trim, total, C, LM`; its own irrelevant `*intensity`, `*dual_stereo`, `prev`,
+    `signalBandwidth` — fed with the values the encoder handed to `ec_enc_bit_logp` / `ec_enc_uint`, in order, returns
+    exactly the same `codedBands`, `balance`, `intensity`, `dual_stereo`, `pulses[]`, `ebits[]`, `fine_priority[]` and
+    makes the same coder calls.  (With C08's `decode_encode` for those calls this is the lock-step of the two sides.) -/
+theorem alloc_enc_dec_agree (p : Opus.CeltAlloc.Inp) (hp : OpusProofs.CeltAlloc.Dom p) (orc : List Nat)
+    (o : Opus.CeltAlloc.Out) (hint : (p.start : Int) ≤ p.intensity) (hdual : p.dualStereo = 0 ∨ p.dualStereo = 1)
+    (h : Opus.CeltAlloc.computeAllocation p { encode := true, oracle := orc, ops := [] } = .ok o)
+    (i d pv sb : Int) (rest : List Nat) :
+    Opus.CeltAlloc.computeAllocation (OpusProofs.CeltAlloc.decInp p i d pv sb)
+      { encode := false, oracle := o.ops.map OpusProofs.CeltAlloc.opVal ++ rest, ops := [] } = .ok o :=
+  OpusProofs.CeltAlloc.alloc_agree p hp orc o hint hdual h i d pv sb rest
 
 end OpusProps.C17
